@@ -199,7 +199,7 @@ impl Scope {
                 if *calls_until_ext_bitfield == 0 {
                     if bits.with_read_position_at(*ext_bit_pos, |b| b.read_bit())? {
                         let read_number_of_ext_fields =
-                            bits.read_normally_small_length()? as usize + 1;
+                            (bits.read_normally_small_length()? as usize).saturating_add(1);
                         if read_number_of_ext_fields > *number_of_ext_fields {
                             #[cfg(feature = "descriptive-deserialize-errors")]
                             descriptions.push(ScopeDescription::warning(
@@ -212,8 +212,11 @@ impl Scope {
                             //         read_number_of_ext_fields
                             //     )));
                         }
-                        let range = bits.pos()..bits.pos() + *number_of_ext_fields;
-                        bits.set_pos(range.start + read_number_of_ext_fields); // skip bit-field
+                        // only the transmitted presence bits exist, further known extension
+                        // fields are absent
+                        let range = bits.pos()
+                            ..bits.pos() + read_number_of_ext_fields.min(*number_of_ext_fields);
+                        bits.set_pos(range.start.saturating_add(read_number_of_ext_fields)); // skip bit-field
                         *self = Scope::AllBitField(range);
                     } else {
                         *self = Scope::ExtensibleSequenceEmpty(name);
